@@ -228,7 +228,28 @@ def run_coverage(ck, prog, fi, rule, make_args, n_time, target_pred, label, scal
             if base == sym_ and fill_ == 0 and not [t for t in ev.trace if t[0] == "store" and getattr(t[1], "expr", None) == sym_]:
                 import itertools as _it
                 got |= {(t_, e_) for t_ in range(n_time) for e_ in _it.product(*[range(k) for k in sample_shape])}
-        stores = [t for t in ev.trace if t[0] == "store" and target_pred(t[1]) and (t[1].expr == base or base.has(t[1].expr))]
+        def same_array(a_, b_, when):
+            """a_ (the target of a store logged at trace position `when`) and b_ (what the result holds) are the same array object, one is a
+            view of the other, or b_ is a copy of a_ taken AFTER that store (stores are seen through views, and by later copies only)."""
+            chain = lambda x_: [x_] + ([] if getattr(x_, "base", None) is None else chain(x_.base))  # noqa: E731
+            ca = chain(a_)
+            todo, seen_ = [b_], set()
+            while todo:
+                y_ = todo.pop()
+                if id(y_) in seen_:
+                    continue
+                seen_.add(id(y_))
+                if any(x_ is y_ for x_ in ca):
+                    return True
+                if getattr(y_, "base", None) is not None:
+                    todo.append(y_.base)
+                cf = getattr(y_, "copied_from", None)
+                if cf is not None and when < cf[1]:
+                    todo.append(cf[0])
+            return False
+        pos_of = {id(t): i_ for i_, t in enumerate(ev.trace)}
+        stores = [t for t in ev.trace if t[0] == "store" and target_pred(t[1]) and (t[1].expr == base or base.has(t[1].expr))
+                  and not (t[1].expr == res.expr and not same_array(t[1], res, pos_of[id(t)]))]
         for _, arr, idx, val, node in stores:
             if bad_store:
                 break
@@ -432,6 +453,18 @@ def check(run, prog):
         sh = elems[0] if not shp else NdArr(shp, elems)
         return [z, sh], {}
     run_coverage(ck, prog, fi, "R2", make_args, n_time, lambda arr: "IFFT" in str(arr.expr) or "Opq" in str(arr.expr), "time_shift")
+
+    # the same for the documented target of time_shift, a baseband signal: its constructor looks at (and may convert) the data it is given,
+    # so a result built before the zero-fill is written could hold a converted copy that never sees the zeros
+    def make_args_bb(shp, vals, sample_shape, n):
+        if sample_shape:
+            z = make_signal(prog, "BasebandSignal", n=n, nchan=sample_shape[0], extra=sample_shape[1:], dtype="complex128", backend="numpy")
+        else:
+            z = make_signal(prog, "Signal", n=n, extra=sample_shape, dtype="complex128")
+        elems = [shift_num(v) for v in vals]
+        sh = elems[0] if not shp else NdArr(shp, elems)
+        return [z, sh], {}
+    run_coverage(ck, prog, fi, "R2", make_args_bb, n_time, lambda arr: "IFFT" in str(arr.expr) or "Opq" in str(arr.expr), "time_shift (BasebandSignal)")
 
     # crop bounds over array shifts
     sample_shape = (2, 3)
